@@ -149,6 +149,7 @@ func vspecAckType(s message.Type) bool {
 //@ extern (*sync.Mutex).Lock
 //@   pure
 //@   flag lock acquire
+//@   flag yield
 //@ extern (*sync.Mutex).Unlock
 //@   pure
 //@   flag lock release
